@@ -162,6 +162,15 @@ class Unsupported(Exception):
     pass
 
 
+# extension points (tie C, third extension): handlers registered by harness/translate/pysrc_rec.py.  Each is
+# consulted only for a spec that opts in (spec["rec_ext"]) and returns None when it does not apply, in which
+# case the translation goes on exactly as before.
+REC_EXPR_HOOKS = []       # (tr, e, env, want) -> (text, type) | None
+REC_STMT_HOOKS = []       # (tr, stmts, env, fin, ind) -> text | None
+REC_COERCE_HOOKS = []     # (tr, text, ty, want, e, env) -> text | None
+REC_FUNC_HOOKS = []       # (tr, fdef) -> fdef
+
+
 RESERVED = {"end": "end_", "at": "at_", "in": "in_", "fun": "fun_", "match": "match_", "with": "with_",
             "return": "return_", "then": "then_", "else": "else_", "let": "let_", "fix": "fix_",
             "Type": "Type_", "Set": "Set_", "Prop": "Prop_", "forall": "forall_", "exists": "exists_",
@@ -433,6 +442,10 @@ class Tr:
         if (ty, want) in self.spec.get("injections", {}):
             # (tag filt) a value of a declared type used where a declared sum of types is wanted
             return self.spec["injections"][(ty, want)].format(text)
+        for h in REC_COERCE_HOOKS:
+            r = h(self, text, ty, want, e, env)
+            if r is not None:
+                return r
         raise Unsupported(f"cannot use {ty} as {want} {what}")
 
     def unify(self, t1, t2):
@@ -465,6 +478,10 @@ class Tr:
                 return r
         if isinstance(e, ast.Constant) and type(e.value) is float and self.spec.get("ratio_type"):
             return self.met_float_const(e)              # (third extension, metrics)
+        for h in REC_EXPR_HOOKS:
+            r = h(self, e, env, want)
+            if r is not None:
+                return r
         if isinstance(e, ast.Constant):
             if e.value is None:
                 return "None", "NONE"
@@ -1495,6 +1512,11 @@ class Tr:
         if not stmts:
             return pad + fin(env, "end")
         s, rest = stmts[0], list(stmts[1:])
+        if self.spec.get("rec_ext"):
+            for h in REC_STMT_HOOKS:                             # (before the other extensions' readings)
+                r = h(self, stmts, env, fin, ind)
+                if r is not None:
+                    return r
         # ---- third extension (metrics): match on string literals, declared closures, unit calls, d[k].append(v)
         if isinstance(s, getattr(ast, "Match", ())) and not any(isinstance(c.pattern, ast.MatchClass) for c in s.cases):
             return self.block([self.met_desugar_match(s, env)] + rest, env, fin, ind)      # (class patterns: extension mem)
@@ -1510,6 +1532,10 @@ class Tr:
             return self.block(rest, env, fin, ind)           # docstring
         if isinstance(s, ast.Pass):
             return self.block(rest, env, fin, ind)
+        for h in REC_STMT_HOOKS:                                 # (act on specs with "rec_ext" only)
+            r = h(self, stmts, env, fin, ind)
+            if r is not None:
+                return r
         r = pysrc_mem.stmt_hook(self, s, rest, env, fin, ind)    # (extension mem)
         if r is not None:
             return r
@@ -2306,6 +2332,8 @@ class Tr:
         self.in_try = False
         self.last_raises = None
         kind = self.kind
+        for h in REC_FUNC_HOOKS:
+            fdef = h(self, fdef)
         a = fdef.args
         # (tsmall) spec["vararg"] / spec["kwarg"] name the parameter; (extension mem) spec["kwarg"] may instead
         # give the dict type of **kw (an upper-case type name)
@@ -3278,6 +3306,7 @@ def translate_all(repo: Path, specs, header=HEADER):
                     raise Unsupported(f"the module does not say `{line}`")
             tr = Tr(spec, known)
             tr.classdef = find_class(trees[path], spec["cls"]) if spec.get("cls") else None
+            tr.module = trees[path]
             for d in fdef.decorator_list:
                 if ast.unparse(d) not in ("override", "property") and \
                         ast.unparse(d) not in spec.get("decorators_ok", ()):             # (tsmall)
